@@ -783,14 +783,14 @@ impl<Writer: Write> Muxer<Writer> {
         crate::verif::cast("api.pts_ticks", scaled_pts as i128, 64, false);
         let pts_units = scaled_pts as u64;
 
-        if self.first_video_pts.is_none() {
-            self.first_video_pts = Some(pts);
-        }
-
         self.writer
             .write_video_sample(pts_units, data, is_keyframe)
             .map_err(|e| self.convert_mp4_error(e, frame_index))?;
 
+        // Only an accepted frame may become the reference for later audio checks.
+        if self.first_video_pts.is_none() {
+            self.first_video_pts = Some(pts);
+        }
         self.last_video_pts = Some(pts);
         self.video_frame_count += 1;
         Ok(())
@@ -870,14 +870,14 @@ impl<Writer: Write> Muxer<Writer> {
         crate::verif::cast("api.dts_ticks", scaled_dts as i128, 64, false);
         let dts_units = scaled_dts as u64;
 
-        if self.first_video_pts.is_none() {
-            self.first_video_pts = Some(pts);
-        }
-
         self.writer
             .write_video_sample_with_dts(pts_units, dts_units, data, is_keyframe)
             .map_err(|e| self.convert_mp4_error(e, frame_index))?;
 
+        // Only an accepted frame may become the reference for later audio checks.
+        if self.first_video_pts.is_none() {
+            self.first_video_pts = Some(pts);
+        }
         self.last_video_pts = Some(pts);
         self.last_video_dts = Some(dts);
         self.video_frame_count += 1;
